@@ -95,12 +95,175 @@ def extract(repo=REPO, target_dir=None, all_targets=False, crates="peppi"):
     return docs
 
 
+def _toks(x):
+    import re
+    return re.findall(r"[A-Za-z_][A-Za-z0-9_]*|[^A-Za-z_\s]", x or "")
+
+
+def _unify(e_strs, m_strs, cands, mapping):
+    """token-wise unification of two lists of type/path strings; differing tokens must be generic-parameter candidates of the
+    new side, mapped consistently (and injectively) to the pinned side. Returns the extended mapping or None."""
+    mp = dict(mapping)
+    if len(e_strs) != len(m_strs):
+        return None
+    for es, ms in zip(e_strs, m_strs):
+        et, mt = _toks(es), _toks(ms)
+        if len(et) != len(mt):
+            return None
+        for x, y in zip(et, mt):
+            if x == y and x not in mp:
+                continue
+            if x in cands and (x[:1].isupper()) and y[:1].isupper():
+                if mp.get(x, y) != y:
+                    return None
+                mp[x] = y
+            elif x != y:
+                return None
+    if len(set(mp.values())) != len(mp):
+        return None
+    return mp
+
+
+def normalise_generics(doc, adoc):
+    """Undo pure renames of generic type parameters (`R` -> `Rd`): a function of the pinned tree that is missing, and an unknown
+    function whose path and signature differ from it only in generic-parameter tokens, identify the renaming; it is applied to
+    every fact as a whole-word substitution (alpha-renaming of a bound type variable). Names that are also items are left alone."""
+    import re
+    anchors = adoc["fns"]
+    pinned_g = set(adoc.get("generic_names", []))
+    present = {f["path"]: f for f in doc["items"]["fns"]}
+    missing = [p for p in anchors if p not in present]
+    if not missing:
+        return doc, {}
+    extra = [p for p in present if p not in anchors and "_serde" not in p and "num_enum" not in p and "::_::" not in p]
+    item_names = set()
+    for k in ("structs", "enums"):
+        for x in doc["items"].get(k, []):
+            item_names.add(x["path"].rsplit("::", 1)[-1])
+    votes = {}
+    for e in extra:
+        f = present[e]
+        cands = set(g for g in (f.get("generics") or []) if re.match(r"^[A-Z][A-Za-z0-9]*$", g)) | set(re.findall(r"<([A-Z][A-Za-z0-9]*)>", e))
+        cands -= pinned_g
+        cands -= item_names
+        if not cands:
+            continue
+        for m in missing:
+            am = anchors[m]
+            # same path modulo generic tokens, or same module + same signature modulo generic tokens
+            mp = _unify([e] + list(f["inputs"]) + [f["output"]], [m] + list(am["inputs"]) + [am["output"]], cands, {})
+            if mp is None and e.rsplit("::", 1)[0] == m.rsplit("::", 1)[0]:
+                mp = _unify(list(f["inputs"]) + [f["output"]], list(am["inputs"]) + [am["output"]], cands, {})
+            if mp:
+                for x, y in mp.items():
+                    votes.setdefault(x, set()).add(y)
+                break
+    ren = {x: next(iter(ys)) for x, ys in votes.items() if len(ys) == 1}
+    if not ren:
+        return doc, {}
+    text = json.dumps(doc)
+    for x, y in ren.items():
+        text = re.sub(r"(?<![A-Za-z0-9_])" + re.escape(x) + r"(?![A-Za-z0-9_])", y, text)
+    doc2 = json.loads(text)
+    doc2["_renamed_generics"] = ren
+    return doc2, ren
+
+
+def normalise_fields(doc, adoc):
+    """Undo pure renames of non-public struct fields: a struct of the pinned tree whose field list has the same types in the
+    same order but other names has its field names mapped back (field accesses, struct literals and struct patterns of that type)."""
+    import re
+    import tir as _tir
+    pinned = adoc.get("structs", {})
+    ren = {}
+    for st in doc["items"].get("structs", []):
+        want = pinned.get(st["path"])
+        if not want or st.get("tuple") or len(want) != len(st["fields"]):
+            continue
+        if [f["ty"] for f in st["fields"]] != [w[1] for w in want]:
+            continue
+        m = {}
+        for f, w in zip(st["fields"], want):
+            if f["name"] != w[0]:
+                if w[2] or f.get("vis") == "Public":
+                    m = None
+                    break
+                m[f["name"]] = w[0]
+        if m:
+            # the two name sets must not overlap (a swap of two same-typed fields is not a rename)
+            if set(m) & set(w[0] for w in want):
+                continue
+            ren[st["path"]] = m
+            for f in st["fields"]:
+                f["name"] = m.get(f["name"], f["name"])
+    if not ren:
+        return doc, {}
+
+    def base_struct(ty):
+        ty = (ty or "").strip()
+        while ty.startswith("&"):
+            ty = ty[1:].strip()
+            if ty.startswith("mut "):
+                ty = ty[4:].strip()
+            ty = re.sub(r"^'\w+ ", "", ty)
+        return re.sub(r"<.*$", "", ty)
+
+    def fix_pat(p):
+        if not isinstance(p, dict):
+            return
+        if p.get("k") == "Struct" and re.sub(r"<.*$", "", p.get("path") or "") in ren:
+            m = ren[re.sub(r"<.*$", "", p["path"])]
+            for fl in p.get("fields", []) or []:
+                if isinstance(fl, dict) and fl.get("name") in m:
+                    fl["name"] = m[fl["name"]]
+        for k in ("sub", "pat", "mid"):
+            fix_pat(p.get(k))
+        for k in ("pats", "before", "after"):
+            for q in p.get(k, []) or []:
+                fix_pat(q)
+        for fl in p.get("fields", []) or []:
+            if isinstance(fl, dict):
+                fix_pat(fl.get("pat"))
+    for b in doc["bodies"]:
+        t = b.get("tir")
+        if not t:
+            continue
+        for p in t.get("params", []):
+            fix_pat(p)
+        for n in _tir.walk(t["value"]):
+            k = n.get("k")
+            if k == "Field":
+                bs = base_struct(n["base"].get("aty") or n["base"].get("ty"))
+                if bs not in ren:
+                    bs = base_struct(n["base"].get("ty"))
+                if bs in ren and n.get("name") in ren[bs]:
+                    n["name"] = ren[bs][n["name"]]
+            elif k == "Struct" and re.sub(r"<.*$", "", n.get("path") or "") in ren:
+                m = ren[re.sub(r"<.*$", "", n["path"])]
+                for fl in n.get("fields", []):
+                    if fl.get("name") in m:
+                        fl["name"] = m[fl["name"]]
+            if k in ("Let", "LetCond", "For"):
+                fix_pat(n.get("pat"))
+            if k == "Match":
+                for a in n["arms"]:
+                    fix_pat(a.get("pat"))
+            if k == "Closure":
+                for p in n.get("params", []):
+                    fix_pat(p)
+    doc["_renamed_fields"] = ren
+    return doc, ren
+
+
 def normalise_renames(doc):
     """Undo pure renames of local functions (same module, same signature, canonical name gone): the rules anchor on the
     pinned tree's function names, and a rename alone must not raise an alarm. Returns (doc, {new name: canonical name})."""
     import re
     with open(os.path.join(VERIF, "rules", "anchors.json")) as fh:
-        anchors = json.load(fh)["fns"]
+        adoc = json.load(fh)
+    doc, _g = normalise_generics(doc, adoc)
+    doc, _f = normalise_fields(doc, adoc)
+    anchors = adoc["fns"]
     present = {f["path"]: f for f in doc["items"]["fns"]}
     missing = [p for p in anchors if p not in present]
     if not missing:
@@ -121,9 +284,17 @@ def normalise_renames(doc):
         cands = [e for e in extra if e.rsplit("::", 1)[-1] == m.rsplit("::", 1)[-1] and (present[e]["inputs"], present[e]["output"]) == sig and e not in renames]
         if len(cands) == 1:
             renames[cands[0]] = m
+    # renamed *and* moved: the only unknown function with that signature, for the only missing function with that signature
+    for m in missing:
+        if m in renames.values():
+            continue
+        sig = (anchors[m]["inputs"], anchors[m]["output"])
+        same_missing = [x for x in missing if x not in renames.values() and (anchors[x]["inputs"], anchors[x]["output"]) == sig]
+        cands = [e for e in extra if (present[e]["inputs"], present[e]["output"]) == sig and e not in renames]
+        if len(cands) == 1 and len(same_missing) == 1 and sig[0]:
+            renames[cands[0]] = m
     # constants that kept name and type but moved (fn-local -> module level, another module)
-    with open(os.path.join(VERIF, "rules", "anchors.json")) as fh:
-        pinned_consts = json.load(fh).get("consts", [])
+    pinned_consts = adoc.get("consts", [])
     have_c = {c["path"]: c for c in doc["items"].get("consts", [])}
     pinned_ty = {"io::slippi::ser::payload_sizes::FRAME_NUMBER": "usize", "io::slippi::ser::payload_sizes::PORT": "usize", "game::NUM_PORTS": "usize"}
     for m in pinned_consts:
